@@ -34,6 +34,30 @@ Definition spec_pairs (kind : N) (q : qarg) : result (option (list (str * str)))
   | QABytes | QAOther => Err TypeError
   end.
 
+(** which rejections an argument calls for (all of its values are inspected: when several
+    values are invalid, which one the implementation meets first depends on the dict order
+    after the update, and the property only says "rejected with TypeError/ValueError") *)
+Definition qvar_err (v : qvar) : bool * bool :=        (* (TypeError, ValueError) *)
+  match v with
+  | QBool | QNone | QOther => (true, false)
+  | QInf | QNan => (false, true)
+  | _ => (false, false)
+  end.
+Definition or2 (a b : bool * bool) : bool * bool := (fst a || fst b, snd a || snd b).
+Definition items_err (seq_form : bool) (items : list (str * qval)) : bool * bool :=
+  fold_right (fun kv acc =>
+                or2 acc (match snd kv with
+                         | QV v => qvar_err v
+                         | QList l => if seq_form then (true, false) else fold_right (fun v a => or2 a (qvar_err v)) (false, false) l
+                         end)) (false, false) items.
+Definition arg_err (q : qarg) : bool * bool :=
+  match q with
+  | QAMap items => items_err false items
+  | QASeq items => items_err true items
+  | QABytes | QAOther => (true, false)
+  | _ => (false, false)
+  end.
+
 Definition pair_eqb (a b : str * str) : bool := str_eqb (fst a) (fst b) && str_eqb (snd a) (snd b).
 Fixpoint pairs_eqb (a b : list (str * str)) : bool :=
   match a, b with
@@ -96,7 +120,8 @@ Definition c12_pred (kind : N) (q : qarg) (names : list str) (before after : val
           end
       | _ =>
           match spec_pairs kind q with
-          | Err e => is_exn after e
+          | Err e => let '(te, ve) := arg_err q in
+                     (te && is_exn after TypeError) || (ve && is_exn after ValueError)
           | Ok None =>
               match obs_pairs after with
               | Some res => match kind with
